@@ -27,6 +27,7 @@ import (
 	"github.com/tink-crypto/tink-go/v2/streamingaead/aesctrhmac"
 	"github.com/tink-crypto/tink-go/v2/verifsim/core"
 	"github.com/tink-crypto/tink-go/v2/verifsim/simrng"
+	"github.com/tink-crypto/tink-go/v2/verifsim/stubkm"
 	"pgregory.net/rapid"
 )
 
@@ -36,7 +37,8 @@ func TestMain(m *testing.M) {
 	core.DeclareFaults("rng-id-collision-live", "rng-id-collision-dead", "rng-id-zero", "rng-id-max", "add-fails-after-id-draw")
 	core.DeclareProbes("redraw-loop-taken", "start-from-parsed-handle", "branch-to-earlier-handle", "refused-disable-primary", "refused-delete-primary",
 		"refused-setprimary-nonenabled", "op-on-absent-id", "addkey-idreq-collision", "addkey-idreq-kept", "same-key-twice", "readd-deleted-fixed-id",
-		"handle-fails-no-primary", "old-handle-reinspected", "enable-destroyed", "error-leaves-unchanged-checked", "nil-template", "unknown-prefix-template")
+		"handle-fails-no-primary", "old-handle-reinspected", "enable-destroyed", "error-leaves-unchanged-checked", "nil-template", "unknown-prefix-template", "add-custom-key-type(legacy NewKeyData path)")
+	stubkm.Register()
 	core.Main(m, prop, "manager", map[string]string{"keyset.Manager": "real", "keyset.Handle / validation": "real", "key generation (registry, keygenregistry)": "real",
 		"crypto/rand": "stub (simrng, scripted key-ID draws)", "reference keyset model": "oracle only"})
 }
@@ -173,6 +175,14 @@ var templates = []struct {
 	{"HMAC256", mac.HMACSHA256Tag128KeyTemplate},
 	{"ED25519", signature.ED25519KeyTemplate},
 	{"ECDSAP256", signature.ECDSAP256KeyTemplate},
+	// custom key types that only have a registry.KeyManager (no parameters parser): Add takes its legacy
+	// registry.NewKeyData path for these
+	{"STUB-MAC", func() *tinkpb.KeyTemplate {
+		return &tinkpb.KeyTemplate{TypeUrl: stubkm.MACURL, OutputPrefixType: tinkpb.OutputPrefixType_TINK}
+	}},
+	{"STUB-AEAD", func() *tinkpb.KeyTemplate {
+		return &tinkpb.KeyTemplate{TypeUrl: stubkm.AEADURL, OutputPrefixType: tinkpb.OutputPrefixType_TINK}
+	}},
 }
 
 func withPrefix(t *tinkpb.KeyTemplate, p tinkpb.OutputPrefixType) *tinkpb.KeyTemplate {
@@ -509,7 +519,7 @@ func (w *world) step(op string) {
 			case 1:
 				kt, pfx = withPrefix(kt, tinkpb.OutputPrefixType_CRUNCHY), "CRUNCHY"
 			case 2:
-				if tpl.name == "HMAC256" || tpl.name == "ED25519" {
+				if tpl.name == "HMAC256" || tpl.name == "ED25519" || tpl.name == "STUB-MAC" {
 					kt, pfx = withPrefix(kt, tinkpb.OutputPrefixType_LEGACY), "LEGACY"
 				}
 			case 3:
@@ -520,7 +530,11 @@ func (w *world) step(op string) {
 		scripted := g4(w.g)
 		var id uint32
 		var err error
-		if op == "Add" {
+		if op == "Add" || strings.HasPrefix(tpl.name, "STUB-") {
+			op = "Add"
+			if strings.HasPrefix(tpl.name, "STUB-") {
+				r.Probe("add-custom-key-type(legacy NewKeyData path)")
+			}
 			func() { defer w.catch("Add"); id, err = w.mgr.Add(kt) }()
 		} else {
 			params, perr := parseParams(kt)
